@@ -239,7 +239,7 @@ fn case<P: ParamRing>(ctx: &mut Ctx, rng: &mut Rng) where for<'x> &'x P: RingOps
 }
 
 pub fn run(ctx: &mut Ctx) {
-    let n = ctx.by_tier(2_000u64, 40_000);
+    let n = ctx.by_tier(4_000u64, 40_000);
     macro_rules! go { ($t:ty, $m:expr) => { ctx.random_cases(&<$t as ParamRing>::pname(), n * $m / 2, |c, r| case::<$t>(c, r)); }; }
     go!(Poly<'H', i64>, 4);
     go!(Poly<'T', i64>, 2);
